@@ -55,3 +55,5 @@ mod index;
 mod lang;
 mod settings;
 mod table;
+#[cfg(feature = "verif")]
+pub mod verif;
